@@ -99,6 +99,44 @@ def run(tier):
         for m, prs in sorted(decided.items()):
             traces.append(dict(meta=dict(tid=len(traces) + 1, sid="fd[%s]" % m), ev=[dict(e="jac", fd_ok=False, pattern_stable=True, modes_agree=True, mass_current=True)],
                                detail=dict(case=t["sid"], pairs=prs[:6])))
+    # ---- model level: the executed generated Jacobian functions of EVERY shipped model against difference quotients of the declared
+    # equation strings (independent evaluator) on the TLC-enumerated argument lattice of C02
+    import json
+    import shutil
+    from ..common import scratch_dir, new_system
+    from ..tlc import run_tlc
+    rounds = 4 if quick else 12
+    d = scratch_dir("jl")
+    try:
+        out = os.path.join(d, "t.json")
+        r = run_tlc("Scen_EqLattice", "Scen_EqLattice.cfg", workers=1, timeout=900, env={"OUT": out, "ROUNDS": str(rounds)})
+        rep.add_tlc(r, "Scen_EqLattice (argument lattice)")
+        table = json.load(open(out))["table"] if os.path.exists(out) else None
+    finally:
+        shutil.rmtree(d, ignore_errors=True)
+    if table is None:
+        rep.machinery("argument lattice not produced", r["out"][-800:])
+    else:
+        names = list(new_system().models)
+        chunks = [names[k::NCPU] for k in range(NCPU)]
+        resj = run_tasks("vh.jacdrv:task", [dict(models=c, table=table, rounds=rounds) for c in chunks if c], nproc=NCPU, timeout=1800)
+        nent = ndec = 0
+        for c, x in zip([c for c in chunks if c], resj):
+            if x["status"] != "ok":
+                rep.machinery("model-level Jacobian probe of %s ended with %s" % (c[:3], x["status"]), x.get("error", "")[-800:])
+                continue
+            for rec in x["result"]:
+                rep.count()
+                nent += rec["entries"]
+                ndec += rec["decided"]
+                for pr in rec["problems"]:
+                    rep.note("model-level Jacobian probe of %s: %s" % (rec["model"], pr))
+                kinds = {b["kind"] for b in rec["bad"]}
+                traces.append(dict(meta=dict(tid=len(traces) + 1, sid="modeljac[%s]" % rec["model"]),
+                                   ev=[dict(e="modeljac", entries_ok="wrong_value" not in kinds, none_missing="missing_entry" not in kinds,
+                                            constants_on_diagonal="constant_off_diagonal" not in kinds)],
+                                   detail=dict(model=rec["model"], bad=rec["bad"], entries=rec["entries"], decided_points=rec["decided"])))
+        rep.extra["model_level"] = dict(models=len(names), generated_entries_compared=nent, decided_points=ndec, rounds=rounds)
     verdicts, tl = tracecheck.validate([dict(meta=t["meta"], ev=t["ev"]) for t in traces], "Trace_PF")
     for t in tl:
         rep.add_tlc(t, "Trace_PF")
@@ -127,7 +165,8 @@ def run(tier):
                 "column-wise finite differences (up to %d columns per case)" % (250 if quick else 1200))
     rep.assume("finite-difference clause is numeric: delta = 1e-6, relative threshold 1e-4 (observed worst recorded), diagonal "
                "regularisation diag_eps allowed for")
-    rep.assume("per-model symbolic derivative equality is not decided; models are covered where a stock case instantiates them")
+    rep.assume("per-model derivative equality is decided numerically for every shipped model (generated Jacobian functions against difference "
+               "quotients of the declared equation strings at the lattice points where the quotient is decided), not symbolically")
     return rep.finish()
 
 
